@@ -603,6 +603,13 @@ for W_a in range(Ntot):
 self.HamOp.set_rwa(rwa_indices)
 '''
 
+# build() runs _build inside energy_units("int"): there convert_energy_2_current_u is the identity (what RE.IDENT relies on)
+T_BUILDWRAP = '''
+def build(self, mult=1, sbi_for_higher_ex=False, vibgen_approx=None, Nvib=None, vibenergy_cutoff=None, fem_full=False, el_blocks=False):
+    with energy_units("int"):
+        self._build(mult=mult, sbi_for_higher_ex=sbi_for_higher_ex, vibgen_approx=vibgen_approx, Nvib=Nvib, vibenergy_cutoff=vibenergy_cutoff, fem_full=fem_full, el_blocks=el_blocks)
+'''
+
 T_BUILD_NB = '''
 self.mult = mult
 self.Nb = numpy.zeros(self.mult + 1, dtype=int)
@@ -940,6 +947,7 @@ def _rel_build(s):
 
 
 def k_build(repo):
+    match_fn(repo + AGG, "AggregateBase.build", T_BUILDWRAP)
     env = match_projection(repo + AGG, "AggregateBase._build", _rel_build, T_BUILD)
     ab = {"L_a": "a", "L_b": "b"}
     d = [("g_bd_d1", "(a : Z) : Z", zhole(env, "H_d1", {"L_a": "a"})), ("g_bd_d2", "(a : Z) : Z", zhole(env, "H_d2", {"L_a": "a"})),
@@ -1223,6 +1231,7 @@ def static(repo):
             "aggregate_base.py:AggregateBase.get_max_excitations", "aggregate_states.py:ElectronicState.__init__ (band, index)",
             "aggregate_base.py:AggregateBase.get_ElectronicState", "aggregate_base.py:AggregateBase._get_exindx",
             "aggregate_base.py:AggregateBase.allstates", "aggregate_base.py:AggregateBase.number_of_states_in_band",
+            "aggregate_base.py:AggregateBase.build (internal-units context around _build)",
             "aggregate_base.py:AggregateBase._build (statements touching HH, DD, HamOp, TrDMOp, all_states; Nb loop)",
             "aggregate_states.py:ElectronicState.energy", "aggregate_states.py:VibronicState.energy",
             "aggregate_base.py:AggregateBase.transition_dipole", "aggregate_base.py:AggregateBase.get_dipole",
